@@ -27,26 +27,26 @@ const EPS: f64 = f64::EPSILON;
 static GAPS: &[f64] = &[0.0, EPS / 2.0, EPS * (1.0 - 1.1102230246251565e-16), EPS, EPS * (1.0 + 2.0 * 1.1102230246251565e-16), 2.0 * EPS, 10.0 * EPS, 1.0, 0.5, 3.0];
 
 fn xs_strategy() -> BoxedStrategy<Vec<f64>> {
-    let n = 2usize..=12;
+    let n = prop_oneof![9 => 2usize..=12, 1 => 13usize..=40];
     prop_oneof![
         // strictly increasing moderate
-        3 => (gen::moderate(8), vec(gen::scaled_pos(-6, 4), 11), n.clone()).prop_map(|(x0, st, n)| {
+        3 => (gen::moderate(8), vec(gen::scaled_pos(-6, 4), 40), n.clone()).prop_map(|(x0, st, n)| {
             let mut v = vec![x0];
             for i in 0..n - 1 { let p = v[i]; let nx = p + st[i]; v.push(if nx > p { nx } else { ppv_exact::next_up(p) }); }
             v
         }),
         // gaps around machine epsilon, starting at 0 / a small power of two / 1
-        3 => (gen::from_table(&[0.0, -0.0, 1.0, 0.5, 7.450580596923828e-9, -1.0, 1e18, -1e18]), vec(0..GAPS.len(), 11), n.clone()).prop_map(|(x0, gi, n)| {
+        3 => (gen::from_table(&[0.0, -0.0, 1.0, 0.5, 7.450580596923828e-9, -1.0, 1e18, -1e18]), vec(0..GAPS.len(), 40), n.clone()).prop_map(|(x0, gi, n)| {
             let mut v = vec![x0];
             for i in 0..n - 1 { let p = v[i]; v.push(p + GAPS[gi[i]]); }
             v
         }),
         // arbitrary order (several out-of-order knots in a row, repeats)
-        3 => (vec(gen::moderate(8), 12), n.clone()).prop_map(|(v, n)| v[..n].to_vec()),
+        3 => (vec(gen::moderate(8), 40), n.clone()).prop_map(|(v, n)| v[..n].to_vec()),
         // few distinct values, many repeats
-        1 => (vec((0usize..4).prop_map(|i| [0.0, 1.0, 1.0000000000000002, 2.0][i]), 12), n.clone()).prop_map(|(v, n)| v[..n].to_vec()),
+        1 => (vec((0usize..4).prop_map(|i| [0.0, 1.0, 1.0000000000000002, 2.0][i]), 40), n.clone()).prop_map(|(v, n)| v[..n].to_vec()),
         // any finite (structural clauses only)
-        1 => (vec(gen::any_finite(), 12), n).prop_map(|(v, n)| v[..n].to_vec()),
+        1 => (vec(gen::any_finite(), 40), n).prop_map(|(v, n)| v[..n].to_vec()),
     ]
     .boxed()
 }
@@ -57,13 +57,14 @@ impl Prop for C06 {
         "C06"
     }
     fn rule(&self) -> String {
-        "case = (2..=12 finite knots; abscissa patterns: strictly increasing, steps from the gap table {0, eps/2, eps(1-2^-53), eps, eps(1+2^-52), 2eps, 10eps, 0.5, 1, 3} starting at 0/-0/2^-27/0.5/±1/±1e18, arbitrary order (several out-of-order knots in a row), few distinct values with repeats, any finite; ordinates moderate or any finite; evaluation points from the knots' alphabet). Oracle: X = running maximum of the abscissae (model); (1) n-1 segments, end_i == X_(i+1) (bits; a signed-zero tie may resolve either way); (2) with the EXACT width w = X_(i+1)-X_i: w < eps(1-2^-53) => the piece is the constant y_i (c1 == 0, c0 == y_i); w >= eps => the returned line, evaluated exactly, passes through (X_i,y_i) within 8u(|y_i|+|c1 X_i|) and through (X_(i+1),y_(i+1)) within 8u(|y_i|+|y_(i+1)|+|c1|(|X_i|+|X_(i+1)|)); in the sliver between either behaviour is accepted; (3) strictly increasing abscissae with gaps >= eps: Piecewise::evaluate at every knot, between knots and outside agrees with the exact straight line through the proper knot pair within the same magnitudes plus the Poly1 evaluation bound. Value clauses only when all non-zero |x|,|y| lie in [2^-200, 2^200]. Non-trivial: >=3 knots and (an out-of-order or repeated abscissa, or a gap within [eps/2, 2eps], or an evaluation exactly at an interior knot).".into()
+        "case = (2..=12 finite knots (1 in 10: up to 40); abscissa patterns: strictly increasing, steps from the gap table {0, eps/2, eps(1-2^-53), eps, eps(1+2^-52), 2eps, 10eps, 0.5, 1, 3} starting at 0/-0/2^-27/0.5/±1/±1e18, arbitrary order (several out-of-order knots in a row), few distinct values with repeats, any finite; ordinates moderate, any finite, or from three values (verbatim-identical consecutive knots); evaluation points from the knots' alphabet). Oracle: X = running maximum of the abscissae (model); (1) n-1 segments, end_i == X_(i+1) (bits; a signed-zero tie may resolve either way); (2) with the EXACT width w = X_(i+1)-X_i: w < eps(1-2^-53) => the piece is the constant y_i (c1 == 0, c0 == y_i); w >= eps => the returned line, evaluated exactly, passes through (X_i,y_i) within 8u(|y_i|+|c1 X_i|) and through (X_(i+1),y_(i+1)) within 8u(|y_i|+|y_(i+1)|+|c1|(|X_i|+|X_(i+1)|)); in the sliver between either behaviour is accepted; (3) strictly increasing abscissae with gaps >= eps: Piecewise::evaluate at every knot, between knots and outside agrees with the exact straight line through the proper knot pair within the same magnitudes plus the Poly1 evaluation bound. (3') for EVERY input: evaluate(t) at the forced abscissae, ±0 and the generated points equals the line (or narrow-segment constant) of the segment the selection model picks on the returned ends. Value clauses only when all non-zero |x|,|y| lie in [2^-200, 2^200]. Non-trivial: >=3 knots and (an out-of-order or repeated abscissa, or a gap within [eps/2, 2eps], or an evaluation exactly at an interior knot).".into()
     }
     fn cases(&self, tier: Tier) -> u64 {
         tier.pick(400_000, 6_000_000)
     }
     fn strategy(&self, _tier: Tier) -> BoxedStrategy<Case> {
-        let ys = prop_oneof![4 => vec(gen::moderate(20), 12), 1 => vec(gen::any_finite(), 12)];
+        // ordinates: independent, or from a handful of values (so that verbatim-identical consecutive knots occur)
+        let ys = prop_oneof![4 => vec(gen::moderate(20), 40), 1 => vec(gen::any_finite(), 40), 2 => vec((0usize..3).prop_map(|i| [1.0, -2.0, 0.5][i]), 40)];
         (xs_strategy(), ys, vec(any::<u16>(), 6), vec(gen::moderate(8), 2), gen::common_scale(150))
             .prop_map(|(xs, ys, qs, extra, sc)| {
                 let n = xs.len();
@@ -176,6 +177,45 @@ impl Prop for C06 {
             let e = Bf::from_dy(&right.sub(&y1).abs());
             if !e.is_zero() {
                 ctx.ratio("right knot: |line(X_(i+1)) - y_(i+1)| / bound", e.div(&Bf::from_dy(&tr)).to_f64());
+            }
+        }
+        // (3') evaluation through Piecewise::evaluate for EVERY input: the segment the selection model picks on
+        // the returned ends is the line through its two forced knots (or the constant y_i when narrower than eps)
+        {
+            let ends_out: Vec<f64> = pw.segments.iter().map(|s| s.end).collect();
+            let mut pts: Vec<f64> = xm.clone();
+            pts.extend(ts.iter().cloned());
+            pts.extend_from_slice(&[0.0, -0.0]);
+            for &t in &pts {
+                if !(t == 0.0 || (t.abs() <= 2.0f64.powi(200) && t.abs() >= 2.0f64.powi(-200))) {
+                    continue;
+                }
+                let j = select(&ends_out, t);
+                let (x0, x1, y0, y1) = (d(xm[j]), d(xm[j + 1]), d(ys[j]), d(ys[j + 1]));
+                let w = x1.sub(&x0);
+                let got = lib!(pw.evaluate(t));
+                let c = pw.segments[j].poly.0;
+                let c1 = d(c[1]);
+                let mag = y0.abs().add(&y1.abs()).add(&c1.abs().mul(&x0.abs().add(&x1.abs()).add(&d(t).abs())));
+                let evalb = u().mul(&d(c[0]).abs().add(&c1.mul(&d(t)).abs())).mul_u64(12);
+                let tol = u().mul(&mag).mul_u64(8).add(&evalb).add(&tiny).add(&mag.mul_pow2(-300));
+                let const_ok = within(got, &y0, &tol);
+                let line_ok = if w.sign() > 0 {
+                    let num = y1.sub(&y0).mul(&d(t).sub(&x0));
+                    let exact = Bf::from_dy(&y0).add(&Bf::from_dy(&num).div(&Bf::from_dy(&w)));
+                    within(got, exact.dy(), &tol)
+                } else {
+                    false
+                };
+                let ok = if w.lt(&eps_lo) { const_ok } else if !w.lt(&d(EPS)) { line_ok } else { const_ok || line_ok };
+                ctx.comparisons += 1;
+                if !ok {
+                    fail!(
+                        "linear(..).evaluate({}) = {} but the segment selected there (#{j}, between the forced knots ({}, {}) and ({}, {})) is {} there; {}",
+                        hex(t), hex(got), hex(xm[j]), hex(ys[j]), hex(xm[j + 1]), hex(ys[j + 1]),
+                        if w.lt(&eps_lo) { "the constant y_left (segment narrower than eps)" } else { "the straight line through them" }, describe()
+                    );
+                }
             }
         }
         // (3) evaluation through Piecewise::evaluate
